@@ -196,7 +196,16 @@ func (c *Conn) Read(p []byte) (int, error) {
 	if len(p) == 0 {
 		return 0, nil
 	}
-	e.point("Read " + c.name)
+	// A read that continues a burst (the thread's previous operation was a
+	// read of this connection, no other thread ran since, bytes are still
+	// buffered) is not a scheduling point: it commutes with every operation
+	// of the other threads except a close of this very connection, and the
+	// parser under test reads byte by byte (see DESIGN.md, SCHED reductions).
+	if t := e.running; t != nil && t.lastReadConn == c && len(c.rbuf) > 0 && !c.closed && !e.opt.FineReads {
+		e.ticks = 0
+	} else {
+		e.point("Read " + c.name)
+	}
 	c.ReadCalls++
 	for {
 		if c.closed {
@@ -206,6 +215,9 @@ func (c *Conn) Read(p []byte) (int, error) {
 			n := copy(p, c.rbuf)
 			c.rbuf = c.rbuf[n:]
 			e.acquire(&c.rvc)
+			if e.running != nil {
+				e.running.lastReadConn = c
+			}
 			return n, nil
 		}
 		if c.reset {
